@@ -16,9 +16,13 @@ from yaql import yaqlization
 
 RULE = ('(a) every registered definition x every visible parameter position '
         'x fillings (attack strings among the string fillers) with a logging '
-        'canary bound there; access forms .name ?.name .name() [name] [0] on '
+        'canary bound there, directly and nested in lists / a map (5 nestings); '
+        'access forms .name ?.name .name() [name] [0] on '
         'the canary for its real, private and dunder member names; '
         'call(name, args, kwargs) for every registered name; (b) Hypothesis: '
+        'histories in which an auto-yaqlizing object hands out instances of '
+        'slotted / plain / library classes and a never-yaqlized instance of '
+        'the same class is then probed; '
         'yaqlization settings (3 switches, whitelist/blacklist entries as '
         'strings, regexes, predicates, remappings with argument maps) x all '
         'member names of a probe class x 3 access forms; non-trivial: (a) '
@@ -122,6 +126,12 @@ def _engine():
                           'yaql.memoryQuota': 10 ** 6})
 
 
+# the canary itself, or a collection / mapping that holds it (library
+# functions that look inside their arguments must not look inside *it*)
+NESTS = ['$canary', '[$canary]', '[[$canary, $canary]]', '{a => $canary}',
+         '[$canary, [$canary]]', '[[1, $canary], [$canary, 2]]']
+
+
 def check_sweep(run, case):
     defs = {d.id: d for d in W.definitions(delegates=False)}
     d = defs.get(case['def'])
@@ -145,7 +155,7 @@ def check_sweep(run, case):
     corp['Lambda'] = corp['Lambda'] + [('src', '$.secret'),
                                        ('src', '$canary')]
     call = W.default_call(d, k, corp)
-    call = W.with_target(call, where, ('src', '$canary'))
+    call = W.with_target(call, where, ('src', NESTS[case.get('nest', 0)]))
     text, binds = call.render()
     canary = Canary()
     del Canary.log[:]
@@ -157,8 +167,10 @@ def check_sweep(run, case):
         # force lazy results so that deferred touches happen
     except Exception as e:   # noqa
         out = ('exc', e)
-    entered = any(i == d.id and c for i, c in _S['entered'])
+    entered = any(i == d.id and c for i, c in _S['entered']) or (
+        case.get('nest', 0) > 0 and any(i == d.id for i, c in _S['entered']))
     run.case(case, entered, cls=['sweep'] + (
+        ['canary-nested'] if case.get('nest') else []) + (
         ['payload-entered-with-canary'] if entered else []))
     _judge(run, case, text, out, '%s(%s)' % (d.fd.name, where[2].name),
            entered)
@@ -431,8 +443,121 @@ def _short(out):
     return (out[0], r if len(r) < 150 else r[:150] + '...')
 
 
+# ---- results handed out by auto-yaqlizing objects ---------------------------
+#
+# A yaqlized object with auto_yaqlize_result makes the *objects it returns*
+# reachable.  That is a grant for those objects only: other instances of
+# their classes - never handed out, never yaqlized - stay out of reach,
+# whatever was evaluated before (histories).
+
+_TOUCHED = []
+
+
+def _result_classes():
+    import fractions
+
+    class Slotted:
+        __slots__ = ('secret', 'tag')
+
+        def __init__(self, tag):
+            object.__setattr__(self, 'secret', SECRET)
+            object.__setattr__(self, 'tag', tag)
+
+        def __getattribute__(self, name):
+            if not name.startswith('__'):
+                _TOUCHED.append((object.__getattribute__(self, 'tag'), name))
+            return object.__getattribute__(self, name)
+
+        def reveal(self):
+            return SECRET
+
+        def __getitem__(self, key):
+            _TOUCHED.append((object.__getattribute__(self, 'tag'), 'item'))
+            return SECRET
+
+    class Plain:
+        def __init__(self, tag):
+            self.__dict__['tag'] = tag
+            self.__dict__['secret'] = SECRET
+
+        def __getattribute__(self, name):
+            if not name.startswith('__'):
+                _TOUCHED.append((object.__getattribute__(
+                    self, '__dict__')['tag'], name))
+            return object.__getattribute__(self, name)
+
+        def reveal(self):
+            return SECRET
+
+        def __getitem__(self, key):
+            _TOUCHED.append((self.__dict__['tag'], 'item'))
+            return SECRET
+
+    class SlottedChild(Slotted):
+        __slots__ = ()
+
+    return {'slotted': Slotted, 'plain': Plain, 'slotted-child': SlottedChild,
+            'fraction': lambda tag: fractions.Fraction(1, 3)}
+
+
+def check_auto_result(run, case):
+    classes = _result_classes()
+    make = classes[case['cls']]
+    handed = make('handed-out')
+    other = make('other')
+
+    class Parent:
+        def __init__(self, kid):
+            self.kid = kid
+
+        def child(self):
+            return self.kid
+
+        def __getitem__(self, key):
+            return self.kid
+    ctx = common.child(common.std_context(delegates=False))
+    ctx['$p'] = yaqlization.yaqlize(Parent(handed), auto_yaqlize_result=True)
+    ctx['$other'] = other
+    eng = _engine()
+    recv = {'method': '$p.child()', 'attr': '$p.kid',
+            'index': "$p['kid']"}
+    for via in case['pre']:
+        for text in (recv[via], recv[via] + '.secret', recv[via] +
+                     '.reveal()'):
+            try:
+                eng(text).evaluate(context=ctx.create_child_context())
+            except Exception:   # noqa
+                pass
+    member = 'numerator' if case['cls'] == 'fraction' else 'secret'
+    text = {'attr': '$other.' + member,
+            'method': '$other.reveal()' if case['cls'] != 'fraction'
+            else '$other.conjugate()',
+            'index': "$other['%s']" % member}[case['form']]
+    del _TOUCHED[:]
+    try:
+        out = ('ok', eng(text).evaluate(context=ctx.create_child_context()))
+    except Exception as e:   # noqa
+        out = ('exc', e)
+    run.case(case, bool(case['pre']) and case['cls'] != 'plain',
+             cls=['auto-result', 'class=' + case['cls']])
+    touched = [t for t in _TOUCHED if t[0] == 'other']
+    ic = 'auto-result:%s/%s' % (case['cls'], case['form'])
+    if touched:
+        run.violate('denied-member-touched', case,
+                    '%s touched an object that was never yaqlized nor '
+                    'handed out (%r) after %r had been evaluated' % (
+                        text, touched, [recv[v] for v in case['pre']]),
+                    input_class=ic)
+    elif out[0] == 'ok':
+        run.violate('denied-access-returns-value', case,
+                    '%s returned %r although the object was never yaqlized '
+                    'nor handed out (after %r)' % (
+                        text, out[1], [recv[v] for v in case['pre']]),
+                    input_class=ic)
+
+
 REPLAY = {'sweep': check_sweep, 'access': check_access, 'call': check_call,
-          'policy': check_policy}
+          'policy': check_policy, 'auto-result': check_auto_result}
 
 
 @st.composite
@@ -480,6 +605,10 @@ def _sweep_shard(run, part, parts, fills):
             for f in range(fills):
                 jobs.append({'kind': 'sweep', 'def': d.id,
                              'where': [w[0], w[1]], 'fill': f})
+            for nest in range(1, len(NESTS)):
+                jobs.append({'kind': 'sweep', 'def': d.id,
+                             'where': [w[0], w[1]], 'fill': nest % 2,
+                             'nest': nest})
     for c in jobs[part::parts]:
         check_sweep(run, c)
 
@@ -501,6 +630,14 @@ def _access_shard(run, part, parts):
 def _policy_shard(run, n, shard):
     run.hyp('policy', policy_cases(), lambda c: check_policy(run, c), n,
             shard=shard)
+    auto = st.builds(
+        lambda c, f, pre: {'kind': 'auto-result', 'cls': c, 'form': f,
+                           'pre': pre},
+        st.sampled_from(['slotted', 'plain', 'slotted-child', 'fraction']),
+        st.sampled_from(['attr', 'method', 'index']),
+        st.lists(st.sampled_from(['method', 'attr', 'index']), max_size=3))
+    run.hyp('auto-results', auto, lambda c: check_auto_result(run, c),
+            max(n // 8, 10), shard=shard)
 
 
 def run(run):
